@@ -21,7 +21,8 @@ def random_quotient(rng):
 
 
 def random_remainder(rng):
-    return rng.choice([0.0, 0.5, NEAR_ONE, 5e-324, 0.25, 0.7, 0.3, 0.1, math.nextafter(0.5, 0.0)]) \
+    return rng.choice([0.0, 0.5, NEAR_ONE, 5e-324, 0.25, 0.7, 0.3, 0.1, math.nextafter(0.5, 0.0), 1e-323, 3e-310,
+                       2.2250738585072014e-308]) \
         if rng.random() < 0.5 else rng.random()
 
 
@@ -30,7 +31,8 @@ def random_displacement(rng):
     if x < 0.1:
         return math.inf
     if x < 0.2:
-        return rng.choice([5e-324, 2.2e-308, 2 ** -54, 1.1102230246251565e-16, 0.3, 0.7, 0.15, 1.0, 2.0 ** 40])
+        return rng.choice([5e-324, 2.2e-308, 2 ** -54, 1.1102230246251565e-16, 0.3, 0.7, 0.15, 1.0, 2.0 ** 40,
+                           1e-323, 3e-310, 7e-315])
     if x < 0.3:
         return 0.0
     return 10.0 ** rng.uniform(-17.0, 12.0)
@@ -45,7 +47,7 @@ def generate(rng, length):
         if x < 0.2:
             ops.append(["new", a, random_quotient(rng), random_remainder(rng)])
         elif x < 0.3:
-            ops.append(["from_float", a, rng.choice([0.0, 0.3, 1.0, 12.5, 2.0 ** 40 + 0.5, 1e-300,
+            ops.append(["from_float", a, rng.choice([0.0, 0.3, 1.0, 12.5, 2.0 ** 40 + 0.5, 1e-300, 5e-324, 3e-310,
                                                       10.0 ** rng.uniform(-10, 15)])])
         elif x < 0.55:
             ops.append(["add", a, b, random_displacement(rng)])      # pool[a] = pool[b] + dt
@@ -58,10 +60,37 @@ def generate(rng, length):
     return pool, ops
 
 
+def frac(x):
+    """Exact rational value of a float, read from its bit pattern (``Fraction(x)`` goes through floating-point
+    operations, which treat subnormal numbers as zero if the process has been switched to flush-to-zero mode)."""
+    import struct
+    bits = struct.unpack("<Q", struct.pack("<d", x))[0]
+    sign = -1 if bits >> 63 else 1
+    exponent = (bits >> 52) & 0x7FF
+    mantissa = bits & ((1 << 52) - 1)
+    if exponent == 0x7FF:
+        raise OverflowError("infinity or nan has no rational value")
+    if exponent == 0:
+        return Fraction(sign * mantissa, 2 ** 1074)
+    value = mantissa | (1 << 52)
+    shift = exponent - 1075
+    return Fraction(sign * value * 2 ** shift) if shift >= 0 else Fraction(sign * value, 2 ** (-shift))
+
+
+def half_ulp(value):
+    """Half a unit in the last place of the binade of the exact non-negative rational ``value``."""
+    if value <= 0:
+        return Fraction(1, 2 ** 1075)
+    k = value.numerator.bit_length() - value.denominator.bit_length()
+    if Fraction(2) ** k > value:
+        k -= 1                                   # 2**k <= value < 2**(k + 1)
+    return Fraction(2) ** (max(k, -1022) - 53)
+
+
 def exact(t):
     if math.isinf(t.quotient):
         return None
-    return Fraction(t.quotient) + Fraction(t.remainder)
+    return frac(t.quotient) + frac(t.remainder)
 
 
 def run_history(pool_size, ops, stats=None):
@@ -90,16 +119,16 @@ def run_history(pool_size, ops, stats=None):
         kind = op[0]
         if kind == "new":
             pool[op[1]] = Time(op[2], op[3])
-            model[op[1]] = Fraction(op[2]) + Fraction(op[3])
+            model[op[1]] = frac(op[2]) + frac(op[3])
             bump("new")
         elif kind == "from_float":
             t = Time.from_float(op[2])
-            if exact(t) != Fraction(op[2]):
+            if exact(t) != frac(op[2]):
                 raise Failure("from_float_inexact", index, {"value": op[2], "result": repr(t)})
             if not (0.0 <= t.remainder < 1.0 and t.quotient == math.floor(t.quotient)):
                 raise Failure("from_float_not_normalised", index, {"value": op[2], "result": repr(t)})
             pool[op[1]] = t
-            model[op[1]] = Fraction(op[2])
+            model[op[1]] = frac(op[2])
             bump("from_float")
         elif kind == "add":
             a, b, dt = op[1], op[2], op[3]
@@ -121,9 +150,12 @@ def run_history(pool_size, ops, stats=None):
             if normalised:
                 if not (0.0 <= result.remainder < 1.0) or result.quotient != math.floor(result.quotient):
                     raise Failure("sum_not_normalised", index, {"left": repr(left), "dt": dt, "result": repr(result)})
-                want = model[b] + Fraction(dt)
+                want = model[b] + frac(dt)
                 got = exact(result)
-                tolerance = HALF_ULP * 2 * max(1, math.ceil(left.remainder + dt))
+                # one rounding of the remainder: the float sum remainder + displacement is rounded once (the split
+                # into integer and fractional part is exact), so the error is at most half a unit in the last place
+                # of that sum -- in the subnormal range half of 2**-1074
+                tolerance = half_ulp(frac(left.remainder) + frac(dt))
                 # the quotient addition is exact below 2**53; beyond, one rounding of the quotient is allowed
                 if abs(want) >= 2 ** 53:
                     tolerance += Fraction(2) ** (math.frexp(float(want))[1] - 53)
@@ -151,10 +183,10 @@ def run_history(pool_size, ops, stats=None):
                 continue
             result = pool[a] - pool[b]
             want = model[a] - model[b]
-            tolerance = 8 * HALF_ULP * max(1, abs(want), abs(Fraction(pool[a].quotient) - Fraction(pool[b].quotient)))
-            if abs(Fraction(result) - want) > tolerance:
+            tolerance = 8 * HALF_ULP * max(1, abs(want), abs(frac(pool[a].quotient) - frac(pool[b].quotient)))
+            if abs(frac(result) - want) > tolerance:
                 raise Failure("difference_inexact", index, {"left": repr(pool[a]), "right": repr(pool[b]),
-                                                            "result": result, "error": float(Fraction(result) - want)})
+                                                            "result": result, "error": float(frac(result) - want)})
             bump("sub")
         elif kind == "compare":
             a, b = op[1], op[2]
@@ -200,7 +232,7 @@ def run_history(pool_size, ops, stats=None):
         for _ in times:
             h = scheduler.get_succeeding_event()
             k = handlers.index(h)
-            value = Fraction(times[k][0]) + Fraction(times[k][1])
+            value = frac(times[k][0]) + frac(times[k][1])
             if previous is not None and value < previous:
                 raise Failure("heap_returns_times_out_of_exact_order", len(ops),
                               {"time": times[k], "after": float(previous), "pushed": [times[j] for j in order][:12]})
